@@ -94,8 +94,135 @@ def rule_A1(F, R):
                     R.violation('%s / A1 / result of %s #%d inspected' % (name, cn.split('::')[-1], ordinal[cn]), 'A1',
                                 'the Result of %s (which may have consumed tokens) is inspected instead of propagated: a failed attempt is not rewound, so a non-sentence can be accepted' % cn.split('::')[-1], e['loc'])
 
+class _Ret(Exception):
+    def __init__(self, v): self.v = v
+
+def helper_outcomes(lib, t, adv):
+    """Outcome of a token helper (expect / check) in the three situations the token reader can be in: no token left ('none'), the next
+    token equal to the argument ('eq'), a different token ('other').  -> {situation: 'ok' | 'err'}; the reader is advanced/peeked
+    exactly once (`adv`).  Raises Undec for anything the small evaluator does not read."""
+    tokvar = None
+    for p in t['params']:
+        if 'pat' in p and p['pat']['k'] == 'Binding' and not is_reader_ty(p['ty']): tokvar = p['pat']['var']
+    if tokvar is None: raise Undec('no token parameter')
+    def peel(e):
+        while e['k'] in ('Use', 'NeverToAny', 'Borrow', 'Deref', 'PointerCoercion') or (e['k'] == 'Block' and not e['stmts'] and e['expr'] is not None):
+            e = e.get('source') or e.get('arg') or e.get('expr')
+        return e
+    def ev(e, env, sit):
+        e = peel(e)
+        k = e['k']
+        if k in ('VarRef', 'UpvarRef'):
+            if e['var'] == tokvar: return ('param',)
+            if e['var'] in env: return env[e['var']]
+            raise Undec('unknown variable %s' % e['var'].split('#')[0], e.get('loc'))
+        if k == 'Literal' and isinstance(e.get('value'), bool): return ('bool', e['value'])
+        if k == 'Tuple' and not e['fields']: return ('unit',)
+        if k == 'Adt':
+            adt = canon(e['adt'])
+            if adt == 'std::result::Result': return ('result', 'ok' if e['variant'] == 'Ok' else 'err')
+            if adt == 'std::option::Option': return ('opt', 'none') if e['variant'] == 'None' else ('optlit', ev(e['fields'][0]['expr'], env, sit))
+            raise Undec('value of type %s' % adt.split('::')[-1], e.get('loc'))
+        if k == 'Call':
+            cn = callee_name(e) or ''; dn = canon((e.get('callee') or {}).get('def')) or ''
+            if cn in NEXTS + PEEKS or (cn.endswith('::next') and e['args'] and is_reader_ty(e['args'][0]['ty'])):
+                seen_adv.append(cn)
+                return ('opt', sit)
+            if cn in ('std::option::Option::copied', 'std::option::Option::cloned', 'std::option::Option::as_ref', 'std::option::Option::as_deref') or dn in ('std::clone::Clone::clone',):
+                return ev(e['args'][0], env, sit)
+            if dn in ('std::cmp::PartialEq::eq', 'std::cmp::PartialEq::ne'):
+                x, y = ev(e['args'][0], env, sit), ev(e['args'][1], env, sit)
+                r = equal(x, y)
+                return ('bool', r if dn.endswith('eq') else not r)
+            if cn in ('std::option::Option::is_some_and', 'std::option::Option::map_or') and e['args']:
+                o = ev(e['args'][0], env, sit)
+                if o[0] != 'opt': raise Undec('is_some_and on something else', e.get('loc'))
+                if cn.endswith('map_or'):
+                    d = ev(e['args'][1], env, sit)
+                    if o[1] == 'none': return d
+                elif o[1] == 'none': return ('bool', False)
+                cl = peel(e['args'][-1])
+                ct = lib.ithir.get(canon(cl['def'])) if cl['k'] == 'Closure' else None
+                if ct is None or len(ct['params']) != 2: raise Undec('closure', e.get('loc'))
+                env2 = dict(env); bind(ct['params'][1]['pat'], ('tok', o[1]), env2)
+                return ev(ct['body'], env2, sit)
+            if cn in ('std::option::Option::is_some', 'std::option::Option::is_none'):
+                o = ev(e['args'][0], env, sit)
+                return ('bool', (o[1] != 'none') == cn.endswith('is_some'))
+            if cn.endswith('FromResidual>::from_residual'): return ('result', 'err')
+            return ('other',)        # error construction, formatting
+        if k == 'Binary' and e['op'] in ('Eq', 'Ne'):
+            r = equal(ev(e['lhs'], env, sit), ev(e['rhs'], env, sit))
+            return ('bool', r if e['op'] == 'Eq' else not r)
+        if k == 'Unary' and e['op'] == 'Not':
+            v = ev(e['arg'], env, sit)
+            if v[0] != 'bool': raise Undec('negation of a non-boolean', e.get('loc'))
+            return ('bool', not v[1])
+        if k == 'LogicalOp':
+            l = ev(e['lhs'], env, sit)
+            if l[0] != 'bool': raise Undec('logical operator', e.get('loc'))
+            if (e['op'] == 'And') != l[1]: return l
+            return ev(e['rhs'], env, sit)
+        if k == 'Block':
+            env = dict(env)
+            for st in e['stmts']:
+                if st['k'] == 'Let':
+                    if st.get('init') is not None: bind(st['pat'], ev(st['init'], env, sit), env)
+                else: ev(st['expr'], env, sit)
+            return ev(e['expr'], env, sit) if e['expr'] is not None else ('unit',)
+        if k == 'If':
+            if e['cond']['k'] == 'Let':
+                v = ev(e['cond']['expr'], env, sit); env2 = dict(env)
+                hit = match(e['cond']['pat'], v, env2)
+                return ev(e['then'], env2, sit) if hit else (ev(e['else'], env, sit) if e['else'] is not None else ('unit',))
+            c = ev(e['cond'], env, sit)
+            if c[0] != 'bool': raise Undec('condition is not decided by the situation', e.get('loc'))
+            return ev(e['then'], env, sit) if c[1] else (ev(e['else'], env, sit) if e['else'] is not None else ('unit',))
+        if k == 'Match':
+            v = ev(e['scrutinee'], env, sit)
+            for a in e['arms']:
+                env2 = dict(env)
+                if any(match(p, v, env2) for p in flat_pats(a['pat'])):
+                    if a['guard'] is not None:
+                        g = ev(a['guard'], env2, sit)
+                        if g[0] != 'bool': raise Undec('guard', a['guard'].get('loc'))
+                        if not g[1]: continue
+                    return ev(a['body'], env2, sit)
+            raise Undec('no arm applies', e.get('loc'))
+        if k == 'Return':
+            raise _Ret(ev(e['value'], env, sit) if e['value'] is not None else ('unit',))
+        return ('other',)
+    def equal(x, y):
+        for a_, b_ in ((x, y), (y, x)):
+            if a_[0] == 'tok' and b_[0] == 'param': return a_[1] == 'eq'
+            if a_[0] == 'opt' and b_[0] == 'optlit' and b_[1][0] == 'param': return a_[1] == 'eq'
+            if a_[0] == 'opt' and b_[0] == 'opt' and b_[1] == 'none' and a_ is not b_: return a_[1] == 'none'
+        raise Undec('comparison of %r with %r' % (x, y))
+    def bind(p, v, env):
+        while p['k'] in ('Deref', 'DerefPattern'): p = p['sub']
+        if p['k'] == 'Binding': env[p['var']] = v
+    def match(p, v, env):
+        while p['k'] in ('Deref', 'DerefPattern'): p = p['sub']
+        if p['k'] == 'Wild': return True
+        if p['k'] == 'Binding' and not p.get('sub'): env[p['var']] = v; return True
+        if p['k'] == 'Variant' and canon(p['adt']) == 'std::option::Option' and v[0] == 'opt':
+            if p['variant'] == 'None': return v[1] == 'none'
+            if v[1] == 'none': return False
+            return match(p['subs'][0]['pat'], ('tok', v[1]), env) if p['subs'] else True
+        raise Undec('pattern %s' % pp_pat(p), p.get('loc'))
+    out = {}
+    for sit in ('none', 'eq', 'other'):
+        seen_adv = []
+        try: r = ev(t['body'], {}, sit)
+        except _Ret as ret: r = ret.v
+        if r[0] != 'result': raise Undec('the helper does not end in Ok / Err when the reader holds %s' % sit)
+        if len(seen_adv) != 1 or seen_adv[0] not in adv: raise Undec('the reader is touched %d time(s) (%s), expected exactly one %s' % (len(seen_adv), seen_adv, 'next()' if adv == NEXTS else 'peek()'))
+        out[sit] = r[1]
+    return out
+
 def rule_helpers(F, R):
-    """expect consumes one token and succeeds iff it equals the argument; check does the same without consuming"""
+    """expect consumes one token and succeeds iff it equals the argument; check does the same without consuming: decided by evaluating
+    the helper in the three situations of the reader (no token, the wanted token, another token), whatever its layout"""
     lib = F.lib()
     for fn, adv, nm in ((EXPECT, NEXTS, 'expect'), (CHECK, PEEKS, 'check')):
         t = lib.ithir.get(fn)
@@ -106,26 +233,15 @@ def rule_helpers(F, R):
                 # the private look-ahead helper is gone (its callers test tokens.peek() themselves, which the walker reads directly)
                 R.count('A:helpers-gone'); continue
         if t is not None:
-            ms = [m for m in walk(t['body']) if m['k'] == 'Match']
-            why = 'unexpected shape'
-            if len(ms) == 1:
-                m = ms[0]
-                adv_calls = [e for e in walk(m['scrutinee']) if e['k'] == 'Call' and callee_name(e) in adv]
-                other = [e for e in walk(t['body']) if e['k'] == 'Call' and callee_name(e) in NEXTS + PEEKS]
-                arms = m['arms']
-                if len(adv_calls) == 1 and len(other) == 1 and len(arms) == 2:
-                    a0, a1 = arms
-                    def is_ok(b): return any(x['k'] == 'Adt' and canon(x['adt']) == 'std::result::Result' and x['variant'] == 'Ok' for x in walk(b)) and not any(x['k'] == 'Adt' and x['variant'] == 'Err' and canon(x['adt']) == 'std::result::Result' for x in walk(b))
-                    def is_err(b): return any(x['k'] == 'Adt' and canon(x['adt']) == 'std::result::Result' and x['variant'] == 'Err' for x in walk(b)) and not is_ok(b)
-                    g = a0['guard']
-                    p = a0['pat']
-                    while p['k'] in ('Deref', 'DerefPattern'): p = p['sub']
-                    some = p['k'] == 'Variant' and p['variant'] == 'Some'
-                    geq = g is not None and g['k'] == 'Call' and (callee_name(g) or '').endswith('PartialEq>::eq') and any(x['k'] == 'VarRef' and x['var'].startswith('token#') for x in walk(g))
-                    ok = some and geq and is_ok(a0['body']) and is_err(a1['body'])
+            try:
+                got = helper_outcomes(lib, t, adv)
+                ok = got == {'none': 'err', 'eq': 'ok', 'other': 'err'}
+                why = 'outcomes %s' % got
+            except Undec as u:
+                why = 'cannot read it: %s' % u.msg
         R.count('A:helper-shapes'); R.obligation(ok, 'A helper ' + nm)
         if not ok:
-            R.violation('%s / A / helper shape' % fn, 'A', '%s is not `match tokens.%s() { Some(t) if *t == token => Ok(()), _ => Err(..) }` (%s)' % (nm, 'next' if nm == 'expect' else 'peek', why), t['span']['loc'] if t else None)
+            R.violation('%s / A / helper shape' % fn, 'A', '%s must %s one token and succeed exactly when it is the given token (%s)' % (nm, 'consume' if nm == 'expect' else 'look at', why), t['span']['loc'] if t else None)
 
 # ------------------------------------------------------------------------------------------------ path walker
 class St:
@@ -148,7 +264,7 @@ class Walker:
                 nm = p['pat']['name']
                 if nm in self.consts:
                     cv = self.consts[nm]
-                    st = st.bind(p['pat']['var'], cv if isinstance(cv, tuple) and cv and cv[0] in ('enum', 'token') else ('lit', cv))
+                    st = st.bind(p['pat']['var'], cv if isinstance(cv, tuple) and cv and cv[0] in ('enum', 'token', 'fnitem') else ('lit', cv))
                 else:
                     st = st.bind(p['pat']['var'], ('param', nm))
         out = []
@@ -200,7 +316,9 @@ class Walker:
         outs, ab = self.run_seq(e['fields'], st)
         return [(s, 'val', ('other',)) for s, vs in outs] + ab
     def r_Closure(self, e, st): return [(st, 'val', ('other',))]
-    def r_ZstLiteral(self, e, st): return [(st, 'val', ('other',))]
+    def r_ZstLiteral(self, e, st):
+        if 'fn' in e: return [(st, 'val', ('fnitem', canon(e['fn'].get('res') or e['fn']['def'])))]       # a function passed as a value (`Self::parse_variable_name`)
+        return [(st, 'val', ('other',))]
     def r_NamedConst(self, e, st): return [(st, 'val', ('other',))]
     def r_Field(self, e, st):
         return [(s, k, ('other',) if k == 'val' else v) for (s, k, v) in self.run(e['lhs'], st)]
@@ -423,7 +541,8 @@ class Walker:
         return out
 
     def lookahead_token(self, closure, st):
-        """the constant token T of a closure `|t| **t == T` (either operand order); None if the closure is something else"""
+        """the tokens accepted by a closure `|t| **t == T` (either operand order) or `|t| matches!(t, T1 | T2 | ..)` (also through a
+        new helper method, which the inlined view shows in place): a frozenset; None if the closure is something else"""
         ct = self.lib.ithir.get(canon(closure['def']))
         if ct is None or len(ct['params']) != 2: return None
         pv = ct['params'][1]['pat']
@@ -432,6 +551,25 @@ class Walker:
         b = ct['body']
         while b['k'] in ('Use', 'NeverToAny', 'Borrow', 'Deref') or (b['k'] == 'Block' and not b['stmts'] and b['expr'] is not None):
             b = b.get('source') or b.get('arg') or b.get('expr')
+        if b['k'] == 'Match' and b.get('source') in (None, 'Normal'):
+            sc = b['scrutinee']
+            while sc['k'] in ('Use', 'Borrow', 'Deref', 'NeverToAny'): sc = sc.get('source') or sc.get('arg')
+            if sc['k'] in ('VarRef', 'UpvarRef') and sc['var'] == pv['var'] and len(b['arms']) == 2 and all(a['guard'] is None for a in b['arms']):
+                def boolean(x):
+                    while x['k'] in ('Use', 'NeverToAny') or (x['k'] == 'Block' and not x['stmts'] and x['expr'] is not None): x = x.get('source') or x.get('expr')
+                    return x.get('value') if x['k'] == 'Literal' and isinstance(x.get('value'), bool) else None
+                a0, a1 = b['arms']
+                q1 = a1['pat']
+                while q1['k'] in ('Deref', 'DerefPattern'): q1 = q1['sub']
+                if boolean(a0['body']) is True and boolean(a1['body']) is False and q1['k'] == 'Wild':
+                    toks = set()
+                    for p in flat_pats(a0['pat']):
+                        q = p
+                        while q['k'] in ('Deref', 'DerefPattern'): q = q['sub']
+                        if q['k'] == 'Variant' and canon(q['adt']) == TOK and not q.get('subs'): toks.add(q['variant'])
+                        else: return None
+                    return frozenset(toks) if toks else None
+            return None
         if b['k'] == 'Call' and callee_name(b) and (callee_name(b).endswith('PartialEq>::eq') or (b.get('callee', {}).get('def') or '').endswith('PartialEq::eq')): l, r = b['args']
         elif b['k'] == 'Binary' and b['op'] == 'Eq': l, r = b['lhs'], b['rhs']
         else: return None
@@ -441,12 +579,19 @@ class Walker:
         other = r if is_param(l) else l if is_param(r) else None
         if other is None: return None
         vals = self.run(other, st)
-        if len(vals) == 1 and vals[0][1] == 'val' and vals[0][2][0] == 'token': return vals[0][2][1]
+        if len(vals) == 1 and vals[0][1] == 'val' and vals[0][2][0] == 'token': return frozenset([vals[0][2][1]])
         return None
 
     def r_Call(self, e, st):
         cn = callee_name(e) or ''
         loc = e['loc']
+        if not cn and e.get('fun') is not None:
+            # a call through a value: a parameter that holds a function item on this (specialised) path is that function
+            fv = self.run(e['fun'], st)
+            if len(fv) == 1 and fv[0][1] == 'val' and fv[0][2][0] == 'fnitem':
+                e = dict(e); e['callee'] = {'def': fv[0][2][1], 'res': fv[0][2][1]}
+                cn = fv[0][2][1]
+            else: raise Undec('call through a value that is not a known function', loc)
         if cn in NEXTS or cn in PEEKS:
             return [(st, 'val', ('next',) if cn in NEXTS else ('peek',))]
         if cn in ('std::option::Option::map_or', 'std::option::Option::is_some_and') and e['args']:
@@ -461,7 +606,7 @@ class Walker:
                 while cl['k'] in ('Use', 'Borrow', 'Deref', 'NeverToAny'): cl = cl.get('source') or cl.get('arg')
                 tok = self.lookahead_token(cl, st) if cl['k'] == 'Closure' else None
                 if tok is not None and (dflt is None or dflt == ('lit', False)):
-                    return [(st.with_ev(('la', frozenset([tok]))), 'val', ('lit', True)), (st.with_ev(('nla', frozenset([tok]))), 'val', ('lit', False))]
+                    return [(st.with_ev(('la', tok)), 'val', ('lit', True)), (st.with_ev(('nla', tok)), 'val', ('lit', False))]
                 raise Undec('look-ahead test on peek() that is not `next token == constant token`', loc)
         outs, ab = self.run_seq(e['args'], st)
         res = list(ab)
@@ -479,7 +624,7 @@ class Walker:
                 res.append((s.with_ev(('la', frozenset([v[1]]))), 'val', ('lit', want_ok)))
                 res.append((s.with_ev(('nla', frozenset([v[1]]))), 'val', ('lit', not want_ok)))
             elif cn in self.K:
-                lits = tuple((v[1] if v[0] == 'lit' else v) for v in vs[1:] if v[0] == 'lit' or (v[0] == 'enum' and len(v) == 3) or v[0] == 'token')
+                lits = tuple((v[1] if v[0] == 'lit' else v) for v in vs[1:] if v[0] == 'lit' or (v[0] == 'enum' and len(v) == 3) or v[0] in ('token', 'fnitem'))
                 if len(lits) != len(vs) - 1: raise Undec('call to %s with a non-constant extra argument' % cn, loc)
                 s2 = s.with_ev(('nt', cn, lits))
                 res.append((s2, 'val', ('res', ('ev', len(s2.ev) - 1))))
@@ -839,15 +984,29 @@ def rule_A3(F, R, ex=None):
                 # consumed events without look-ahead
                 cons_evs = [(i, ev) for i, ev in enumerate(evs) if ev[0] in ('tok', 'nt', 'loop')]
                 pos = {i: j for j, (i, ev) in enumerate(cons_evs)}
-                def desc(x):
-                    d = describe(x, evs, env)
+                def desc(x, evs=evs, env=env, pos=pos):
                     import re as _re
+                    import facts as _facts
+                    if x is not None and x[0] == 'ev' and evs[x[1]][0] == 'nt' and evs[x[1]][1] not in _facts.baseline_fns() and evs[x[1]][1] in lib.ithir:
+                        # the result of a new helper (e.g. a generic list parser taking the closing token and the item parser): what the helper
+                        # returns on its own success paths, with these constants
+                        g_, lits_ = evs[x[1]][1], evs[x[1]][2]
+                        tg = lib.ithir[g_]
+                        extra_ = [p_ for p_ in tg['params'] if not is_reader_ty(p_['ty'])]
+                        if len(extra_) == len(lits_):
+                            inner = set()
+                            for (evs2, v2, env2) in Walker(lib, K, {p_['pat']['name']: c_ for p_, c_ in zip(extra_, lits_)}).paths(g_):
+                                inner.add(_re.sub(r'@\d+', '@*', describe(v2, evs2, env2)))
+                            inner.discard('VEC[]')
+                            if len(inner) == 1: return inner.pop()
+                            if not inner: return 'VEC[]'
+                    d = describe(x, evs, env)
                     return _re.sub(r'@(\d+)', lambda m: '@%d' % pos.get(int(m.group(1)), -1), d)
                 seq = ev_seq([ev for _, ev in cons_evs])
                 if v is not None and v[0] == 'cons':
                     R.count('A3:constructor-paths')
                     check_cons(R, fname, v, seq, [desc(x) for x in v[2]], lits, seen)
-                elif fname == PARSER + 'parse_parentized_formula':
+                elif fname == PARSER + 'parse_parentized_formula' or (fname == SIMPLE and seq[:1] == ['OpenParen']):
                     ok = seq == ['OpenParen', '<parse_sub_formula>', 'CloseParen'] and desc(v) == 'NT:parse_sub_formula@1'
                     R.count('A3:constructor-paths'); R.obligation(ok, 'A3 paren')
                     if not ok: R.violation('%s / A3 / parenthesised' % fname, 'A3', 'a parenthesised formula must be ( sub ) returning the inner formula; got %s returning %s' % (seq, desc(v)))
@@ -897,6 +1056,7 @@ def call_site_consts(lib, K, fname, n_extra):
                     if x['k'] == 'Literal' and isinstance(x.get('value'), bool): vals.append(x['value'])
                     elif x['k'] == 'Adt' and not x['fields'] and canon(x['adt']) not in (SYN, TOK): vals.append(('enum', canon(x['adt']), x['variant']))
                     elif x['k'] == 'Adt' and not x['fields'] and canon(x['adt']) == TOK: vals.append(('token', x['variant']))
+                    elif x['k'] == 'ZstLiteral' and 'fn' in x: vals.append(('fnitem', canon(x['fn'].get('res') or x['fn']['def'])))
                     elif is_reader_ty(x.get('ty', {})): continue
                     else: vals.append(None)
                 vals = vals[-n_extra:] if n_extra else []
